@@ -11,7 +11,7 @@ CHECKS["C13"] = {
             "Cell / std::string / int with a tracking allocator; exhaustive mode enumerates every release order of <=4 handles x erase placement. "
             "A case is non-trivial when it erased at least one element (reclamation path exercised) or is a handles-only script; distinct = distinct "
             "(script text | program hash x schedule signature).",
-    "assumptions": ["records are recognised by the substring 'zombie' in the internal record type name",
+    "assumptions": ["bookkeeping records are recognised as objects constructed from a single pointer argument (element types used are not pointers)",
                     "handles are never copied (client misuse)"],
     "exhaustive_note": "mode 'exhaustive': all release orders of 1..4 handles x erase placements, for 3 element types (finite space, fully enumerated)",
     "runs": [
@@ -156,7 +156,7 @@ CHECKS["C05"] = {
             "release triggers reclamation, handles kept across later actions). Freed nodes and log records are quarantined (never reused within the "
             "round) and poisoned: ASan reports any touch, plain builds see 0xDD fill / dead payload magic / SIGSEGV. Non-trivial: a node was "
             "reclaimed while another handle was still alive; distinct = (program, schedule signature).",
-    "assumptions": ["handles are never copied (client misuse, outside the property)", "records are recognised by the substring 'zombie' in the internal type name"],
+    "assumptions": ["handles are never copied (client misuse, outside the property)", "bookkeeping records are recognised as objects constructed from a single pointer argument"],
     "runs": [
         {"variant": "asan", "engine": "serial", "procs": 6, "rounds_quick": 3000, "rounds_thorough": 50000},
         {"variant": "asan", "engine": "stress", "procs": 4, "rounds_quick": 2500, "rounds_thorough": 40000},
